@@ -275,6 +275,9 @@ def run(ctx, proof):
     # offers must be those Spec.Complete prescribes
     from . import c01
     c01.check_grammars(ctx, 400 if ctx.thorough() else 24, own="C09", gen="fallback_gen")
+    # ... and several within-word expressions of one shape whose values sit on different `||` levels (candidates for
+    # sharing one table-reading function in the script)
+    c01.check_grammars(ctx, 300 if ctx.thorough() else 16, own="C09", gen="twin_gen")
     ctx.extra["programs"] = ctx.evaluations
 
 
